@@ -124,6 +124,31 @@ def trace_calc_nucleation(NR, KE, make_prec, dG_value, item, Rprev=0.0, model=No
     return item(cap[0][0]), item(Y.drivingForce[0, 0])
 
 
+def trace_extra_gibbs(mk, ast=-30000.0, GE=1234.0, N=4.0):
+    """run the REAL property getters of kawin.thermo.Thermodynamics.ExtraGibbsModel (GM/energy and G/formulaenergy) on a
+    stand-in `self` carrying `ast` and `_site_ratio_normalization`, with `v.GE` of that module replaced for the duration;
+    mk(name, value) makes the scalar (a Sym for the translator, a float for the numeric validation).
+    returns (GM, G); raises if the alias pairs no longer give the same expression"""
+    vlib.use_repo()
+    with warnings.catch_warnings():
+        warnings.simplefilter('ignore')
+        from kawin.thermo import Thermodynamics as TH
+    cls = TH.ExtraGibbsModel
+    o = types.SimpleNamespace(ast=mk('ast', ast), _site_ratio_normalization=mk('N', N))
+    saved = TH.v.GE
+    try:
+        TH.v.GE = mk('GE', GE)
+        got = {n: cls.__dict__[n].fget(o) for n in ('GM', 'energy', 'G', 'formulaenergy')}
+    finally:
+        TH.v.GE = saved
+    for a, b in (('GM', 'energy'), ('G', 'formulaenergy')):
+        x, y = got[a], got[b]
+        same = (x.node is y.node) if hasattr(x, 'node') else (x == y)
+        if not same:
+            raise RuntimeError('ExtraGibbsModel.%s and .%s are no longer the same expression' % (a, b))
+    return got['GM'], got['G']
+
+
 # =====================================================================================================
 # regeneration
 # =====================================================================================================
@@ -382,6 +407,17 @@ def regenerate(ctx):
     emit('superSat', ['x', 'xa', 'xb', 'Va', 'Vb'], Sym.const(seenS[0][1]), '_singleGrowthBinary: superSaturation of a size class')
     emit('growthBinary', ['kf', 'D', 'eff', 'x', 'xa', 'xb', 'Va', 'Vb', 'R'], Sym.const(grb[1]),
          '_singleGrowthBinary: growth rate of a size class of radius R (stable branch: RdrivingForceIndex + 1 < number of class boundaries)')
+    del sym.PATH[:]
+
+    # ---------------------------------------------------------------- ExtraGibbsModel: where the extra energy GE enters
+    out.append('/-! ### ExtraGibbsModel (kawin/thermo/Thermodynamics.py): the two energy properties of the precipitate model, traced\n'
+               'through the property getters of the REAL class.  ast = Gibbs energy per mole of atoms of the database description,\n'
+               'GE = v.GE (Gibbs-Thomson energy / driving-force unknown), N = _site_ratio_normalization (moles of atoms per formula\n'
+               'unit).  extraGM = GM = energy (per mole of atoms: calculate() / sampling), extraG = G = formulaenergy (per formula\n'
+               'unit: the equilibrium solver). -/\n\n')
+    gm, G = trace_extra_gibbs(lambda n, v0: V(n, v0))
+    emit('extraGM', ['ast', 'GE'], gm, 'ExtraGibbsModel.GM (= .energy): Gibbs energy per mole of atoms with the extra energy')
+    emit('extraG', ['ast', 'GE', 'N'], G, 'ExtraGibbsModel.G (= .formulaenergy): Gibbs energy per formula unit with the extra energy')
     del sym.PATH[:]
 
     text = sym.HEADER + '\nnamespace KawinV.Gen.C12\n\n' + ''.join(out) + 'end KawinV.Gen.C12\n'
